@@ -807,7 +807,7 @@ fn xen_regions(k: &K) {
 pub fn run(tier: Tier, replay: Option<String>) -> i32 {
     let ctx = crate::new_ctx("C18", tier, "exploration", &replay);
     let build: &'static str = if cfg!(feature = "xen") { "xen" } else { "std" };
-    ctx.set_rule("every zero-length form of the byte-access interface - write/read/write_slice/read_slice with an empty buffer, write_obj/read_obj of the crate's zero-sized types ([u8;0] .. [u128;0], [i8;0], [usize;0]), the four stream forms with count 0 (in-memory, File, UnixStream and a minimal stream; in-memory streams in every state a history leaves them in: cursors over 0 and 4 bytes at positions before, at and beyond the end incl. u64::MAX and after a truncation, exhausted slices, full sinks, vectors with spare capacity - the stream may not move), VolatileSlice::copy_to/copy_from and VolatileArrayRef::copy_to/copy_from/copy_to_volatile_slice with zero-sized elements (0 .. 5000 host elements x arrays of 0 .. 2^60 elements; slice-level copies also with isize::MAX, isize::MAX+1 and usize::MAX host elements), empty buffers, zero element counts and empty destinations - x three layers (volatile slice incl. an empty container, region, guest memory; mmap collection and trait-default implementation) x address classes {mapped, last byte, one past a region / the end, in a hole, out of range, 0, u64::MAX / usize::MAX} (stream and copy forms: addresses valid for a non-empty access); Xen build: UNIX, foreign, grant in advance and grant on demand on the emulated devices, on the on-demand region the sweep is repeated one address at a time and the number of requests the grant device sees must not depend on the address (page-aligned or not). Required: Ok(0)/Ok(()), no panic/abort/fault, memory and dirty bitmap identical before and after. One case = one form at one address; distinct by construction; all are non-trivial (each reaches the implementation).");
+    ctx.set_rule("every zero-length form of the byte-access interface - write/read/write_slice/read_slice with an empty buffer, write_obj/read_obj of the crate's zero-sized types ([u8;0] .. [u128;0], [i8;0], [usize;0]), the four stream forms with count 0 (in-memory, File, UnixStream and a minimal stream; in-memory streams in every state a history leaves them in: cursors over 0 and 4 bytes at positions before, at and beyond the end incl. u64::MAX and after a truncation, exhausted slices, full sinks, vectors with spare capacity - the stream may not move), VolatileSlice::copy_to/copy_from and VolatileArrayRef::copy_to/copy_from/copy_to_volatile_slice with zero-sized elements (0 .. 5000 host elements x arrays of 0 .. 2^60 elements; slice-level copies also with isize::MAX, isize::MAX+1 and usize::MAX host elements), empty buffers, zero element counts and empty destinations, VolatileRef::load/store and VolatileArrayRef::load/store/ref_at of the zero-sized types at every offset 0..=9 (every alignment of the element address) - x three layers (volatile slice incl. an empty container, region, guest memory; mmap collection and trait-default implementation) x address classes {mapped, last byte, one past a region / the end, in a hole, out of range, 0, u64::MAX / usize::MAX} (stream and copy forms: addresses valid for a non-empty access); Xen build: UNIX, foreign, grant in advance and grant on demand on the emulated devices, on the on-demand region the sweep is repeated one address at a time and the number of requests the grant device sees must not depend on the address (page-aligned or not). Required: Ok(0)/Ok(()), no panic/abort/fault, memory and dirty bitmap identical before and after. One case = one form at one address; distinct by construction; all are non-trivial (each reaches the implementation).");
     ctx.assume("the element count reported for copies of zero-sized elements is recorded, not judged; device windows requested for zero-length accesses on on-demand regions are counted, not judged");
     if ctx.replay_of.is_some() {
         println!("replay: deterministic enumeration; re-running it");
